@@ -379,7 +379,11 @@ func verifyFunction(w *World, fn *ssa.Function, unroll int) *FuncResult {
 		for anchor, cl := range spec.Asserts {
 			for _, c := range cl {
 				if g.assertUse[c] == 0 {
-					fr.Drift = append(fr.Drift, "anchor not found: assert "+anchor)
+					kind := "assert "
+					if strings.HasPrefix(c.Kind, "assume") {
+						kind = "assume " // an assumption that was not applied: safety proofs may have rested on it too
+					}
+					fr.Drift = append(fr.Drift, "anchor not found: "+kind+anchor)
 				}
 			}
 		}
